@@ -186,9 +186,7 @@ Proof.
     + (* ty *) intros [k subs es] Hw m t' m' E. cbn [w_ty] in Hw. cbn [rc_ty] in E.
       split_pairs. injection E as <- <-. keep_conv j Ity Ie Iis Ieb Ia Ite Ifb Ip Is Isb Ib Il. finish_node j.
     + (* expr *) intros e Hw m e' m' E. destruct e; try destruct op; cbn [w_expr] in Hw; cbn [rc_expr] in E;
-        split_pairs; try (injection E as <- <-); keep_conv j Ity Ie Iis Ieb Ia Ite Ifb Ip Is Isb Ib Il; try finish_node j.
-      all: match goal with |- ?G => idtac "EXPR LEFT:" G end.
-      all: admit.
+        split_pairs; try (injection E as <- <-); keep_conv j Ity Ie Iis Ieb Ia Ite Ifb Ip Is Isb Ib Il; finish_node j.
     + (* iseg *) intros x Hw m x' m' E. destruct x; cbn [w_iseg] in Hw; cbn [rc_iseg] in E;
         split_pairs; injection E as <- <-; keep_conv j Ity Ie Iis Ieb Ia Ite Ifb Ip Is Isb Ib Il; finish_node j.
     + (* ebranch *) intros x Hw m x' m' E. destruct x; cbn [w_ebranch] in Hw; cbn [rc_ebranch] in E;
@@ -202,9 +200,7 @@ Proof.
     + (* param *) intros x Hw m x' m' E. destruct x; cbn [w_param] in Hw; cbn [rc_param] in E;
         split_pairs; injection E as <- <-; keep_conv j Ity Ie Iis Ieb Ia Ite Ifb Ip Is Isb Ib Il; finish_node j.
     + (* stmt *) intros x Hw ctx m x' m' c E. destruct x; cbn [w_stmt] in Hw; cbn [rc_stmt] in E;
-        split_pairs; injection E as <- <- <-; keep_conv j Ity Ie Iis Ieb Ia Ite Ifb Ip Is Isb Ib Il; try finish_node j.
-      all: match goal with |- ?G => idtac "STMT LEFT:" G end.
-      all: admit.
+        split_pairs; injection E as <- <- <-; keep_conv j Ity Ie Iis Ieb Ia Ite Ifb Ip Is Isb Ib Il; finish_node j.
     + (* sbranch *) intros x Hw ctx m x' m' c E. destruct x; cbn [w_sbranch] in Hw; cbn [rc_sbranch] in E;
         split_pairs; injection E as <- <- <-; keep_conv j Ity Ie Iis Ieb Ia Ite Ifb Ip Is Isb Ib Il; finish_node j.
     + (* block *) intros [ss last] Hw ctx m x' m' c E. cbn [w_block] in Hw; cbn [rc_block] in E.
@@ -238,7 +234,7 @@ Lemma stray_args_table_eq en : stray_args (ATable en) = sumN (map stray_tentry e
 Proof. reflexivity. Qed.
 Lemma stray_fbody_eq inl ps va vt rt gen attrs body :
   stray_fbody inl (FBody ps va vt rt gen attrs body) =
-  (sumN (map stray_param ps) + (optN stray_ty vt + (optN stray_ty rt + (optN continues_in_ty gen + stray_block inl body))))%N.
+  (sumN (map stray_param ps) + (optN stray_ty vt + (optN stray_ty rt + (optN stray_ty gen + stray_block inl body))))%N.
 Proof. reflexivity. Qed.
 Lemma stray_param_eq x t : stray_param (Param x t) = optN stray_ty t.
 Proof. reflexivity. Qed.
@@ -271,15 +267,6 @@ Ltac seq :=
     ?stray_args_tuple_eq, ?stray_args_table_eq, ?stray_fbody_eq, ?stray_param_eq, ?stray_stmt_assign_eq,
     ?stray_stmt_genfor_eq, ?stray_stmt_if_eq, ?stray_stmt_local_eq, ?stray_stmt_numfor_eq, ?stray_stmt_typedecl_eq,
     ?stray_block_eq, ?stray_last_return_eq.
-
-Lemma continues_in_ty_f t : continues_in_ty t = f_ty 1 t.
-Proof.
-  unfold continues_in_ty. destruct (bridge_all (w_ty t)) as (Hty & _).
-  destruct (Hty t (Nat.le_refl _)) as [_ H]. apply H. lia.
-Qed.
-
-Lemma optN_continues_in_ty o : optN continues_in_ty o = optN (f_ty 1) o.
-Proof. destruct o; [apply continues_in_ty_f|reflexivity]. Qed.
 
 Definition cont_at (n : nat) : Prop :=
   (forall t, w_ty t <= n -> forall m t' m', rc_ty m t = (t', m') -> f_ty 1 t' = stray_ty t) /\
@@ -375,7 +362,7 @@ Proof.
         split_pairs; injection E as <- <-; cont_conv Ity Ie Iis Ieb Ia Ite Ifb Ip Is Isb Ib; cont_finish.
     + (* fbody *) intros x Hw ctx m x' m' c E. destruct x; cbn [w_fbody] in Hw; cbn [rc_fbody] in E;
         split_pairs; injection E as <- <- <-; cont_conv Ity Ie Iis Ieb Ia Ite Ifb Ip Is Isb Ib.
-      feq. seq. rewrite optN_continues_in_ty. destruct (attrs =? 0)%N; cbn [u Nat.eqb]; lia.
+      feq. seq. destruct (attrs =? 0)%N; cbn [u Nat.eqb]; lia.
     + (* param *) intros x Hw m x' m' E. destruct x; cbn [w_param] in Hw; cbn [rc_param] in E;
         split_pairs; injection E as <- <-; cont_conv Ity Ie Iis Ieb Ia Ite Ifb Ip Is Isb Ib; cont_finish.
     + (* stmt *) intros x Hw ctx m x' m' c E. destruct x; try destruct op; try destruct is_const;
@@ -406,3 +393,183 @@ Proof.
       * injection E as <- <-. rewrite (Hc eq_refl). reflexivity.
       * split_pairs. injection E as <- <-. cont_conv Ity Ie Iis Ieb Ia Ite Ifb Ip Is Isb Ib. feq. seq. lia.
 Qed.
+
+(** * Stray [continue] statements are [continue] statements *)
+
+Lemma sumN_map_le {A} (F G : A -> N) l : (forall x, In x l -> (F x <= G x)%N) -> (sumN (map F l) <= sumN (map G l))%N.
+Proof.
+  induction l as [|x l IH]; intros H; [cbn; lia|]. cbn [map]. rewrite !sumN_cons.
+  pose proof (H x (or_introl eq_refl)). pose proof (IH (fun y Hy => H y (or_intror Hy))). lia.
+Qed.
+
+Lemma optN_le {A} (F G : A -> N) o : (forall x, o = Some x -> (F x <= G x)%N) -> (optN F o <= optN G o)%N.
+Proof. destruct o; intros H; cbn [optN]; [apply H; reflexivity|lia]. Qed.
+
+Definition le_at (n : nat) : Prop :=
+  (forall t, w_ty t <= n -> (stray_ty t <= f_ty 1 t)%N) /\
+  (forall e, w_expr e <= n -> (stray_expr e <= f_expr 1 e)%N) /\
+  (forall s, w_iseg s <= n -> (stray_iseg s <= f_iseg 1 s)%N) /\
+  (forall b, w_ebranch b <= n -> (stray_ebranch b <= f_ebranch 1 b)%N) /\
+  (forall a, w_args a <= n -> (stray_args a <= f_args 1 a)%N) /\
+  (forall t, w_tentry t <= n -> (stray_tentry t <= f_tentry 1 t)%N) /\
+  (forall f, w_fbody f <= n -> forall inl, (stray_fbody inl f <= f_fbody 1 f)%N) /\
+  (forall p, w_param p <= n -> (stray_param p <= f_param 1 p)%N) /\
+  (forall s, w_stmt s <= n -> forall inl, (stray_stmt inl s <= f_stmt 1 s)%N) /\
+  (forall b, w_sbranch b <= n -> forall inl, (stray_sbranch inl b <= f_sbranch 1 b)%N) /\
+  (forall b, w_block b <= n -> forall inl, (stray_block inl b <= f_block 1 b)%N) /\
+  (forall l, w_last l <= n -> forall inl, (stray_last inl l <= f_last 1 l)%N).
+
+Ltac le_list l w I :=
+  apply sumN_map_le; let x := fresh "x" in let Hx := fresh "Hx" in
+  intros x Hx; apply I; pose proof (sum_in w l x Hx); lia.
+Ltac le_opt I :=
+  apply optN_le; let x := fresh "x" in let Hx := fresh "Hx" in
+  intros x Hx; subst; apply I; cbn [wopt] in *; lia.
+
+Ltac le_step Ity Ie Iis Ieb Ia Ite Ifb Ip Is Isb Ib Il :=
+  match goal with
+  | |- (0 <= _)%N => apply N.le_0_l
+  | |- (_ + _ <= _ + _)%N => apply N.add_le_mono
+  | |- (sumN (map stray_ty ?l) <= _)%N => le_list l w_ty Ity
+  | |- (sumN (map stray_expr ?l) <= _)%N => le_list l w_expr Ie
+  | |- (sumN (map stray_iseg ?l) <= _)%N => le_list l w_iseg Iis
+  | |- (sumN (map stray_ebranch ?l) <= _)%N => le_list l w_ebranch Ieb
+  | |- (sumN (map stray_tentry ?l) <= _)%N => le_list l w_tentry Ite
+  | |- (sumN (map stray_param ?l) <= _)%N => le_list l w_param Ip
+  | |- (sumN (map (stray_stmt _) ?l) <= _)%N => le_list l w_stmt Is
+  | |- (sumN (map (stray_sbranch _) ?l) <= _)%N => le_list l w_sbranch Isb
+  | |- (optN stray_ty _ <= _)%N => le_opt Ity
+  | |- (optN stray_expr _ <= _)%N => le_opt Ie
+  | |- (optN (stray_block _) _ <= _)%N => le_opt Ib
+  | |- (optN (stray_last _) _ <= _)%N => le_opt Il
+  | |- (stray_ty _ <= _)%N => apply Ity; lia
+  | |- (stray_expr _ <= _)%N => apply Ie; lia
+  | |- (stray_iseg _ <= _)%N => apply Iis; lia
+  | |- (stray_ebranch _ <= _)%N => apply Ieb; lia
+  | |- (stray_args _ <= _)%N => apply Ia; lia
+  | |- (stray_tentry _ <= _)%N => apply Ite; lia
+  | |- (stray_fbody _ _ <= _)%N => apply Ifb; lia
+  | |- (stray_param _ <= _)%N => apply Ip; lia
+  | |- (stray_stmt _ _ <= _)%N => apply Is; lia
+  | |- (stray_sbranch _ _ <= _)%N => apply Isb; lia
+  | |- (stray_block _ _ <= _)%N => apply Ib; lia
+  | |- (stray_last _ _ <= _)%N => apply Il; lia
+  end.
+
+Ltac le_node Ity Ie Iis Ieb Ia Ite Ifb Ip Is Isb Ib Il :=
+  feq; seq;
+  cbn [f_expr f_iseg f_ebranch f_args f_tentry f_stmt f_sbranch f_last
+       stray_expr stray_iseg stray_ebranch stray_args stray_tentry stray_stmt stray_sbranch stray_last];
+  feq; seq; cbn [u Nat.eqb]; rewrite ?N.add_0_l;
+  repeat le_step Ity Ie Iis Ieb Ia Ite Ifb Ip Is Isb Ib Il.
+
+Lemma le_all : forall n, le_at n.
+Proof.
+  induction n as [|n IH].
+  - unfold le_at. repeat match goal with |- _ /\ _ => split end; intros x Hx; exfalso;
+      [pose proof (w_ty_pos x)|pose proof (w_expr_pos x)|pose proof (w_iseg_pos x)|pose proof (w_ebranch_pos x)
+      |pose proof (w_args_pos x)|pose proof (w_tentry_pos x)|pose proof (w_fbody_pos x)|pose proof (w_param_pos x)
+      |pose proof (w_stmt_pos x)|pose proof (w_sbranch_pos x)|pose proof (w_block_pos x)|pose proof (w_last_pos x)]; lia.
+  - destruct IH as (Ity & Ie & Iis & Ieb & Ia & Ite & Ifb & Ip & Is & Isb & Ib & Il).
+    unfold le_at. repeat match goal with |- _ /\ _ => split end.
+    + intros [k subs es] Hw. cbn [w_ty] in Hw. le_node Ity Ie Iis Ieb Ia Ite Ifb Ip Is Isb Ib Il.
+    + intros e Hw. destruct e; try destruct op; cbn [w_expr] in Hw; le_node Ity Ie Iis Ieb Ia Ite Ifb Ip Is Isb Ib Il.
+    + intros x Hw. destruct x; cbn [w_iseg] in Hw; le_node Ity Ie Iis Ieb Ia Ite Ifb Ip Is Isb Ib Il.
+    + intros x Hw. destruct x; cbn [w_ebranch] in Hw; le_node Ity Ie Iis Ieb Ia Ite Ifb Ip Is Isb Ib Il.
+    + intros x Hw. destruct x; cbn [w_args] in Hw; le_node Ity Ie Iis Ieb Ia Ite Ifb Ip Is Isb Ib Il.
+    + intros x Hw. destruct x; cbn [w_tentry] in Hw; le_node Ity Ie Iis Ieb Ia Ite Ifb Ip Is Isb Ib Il.
+    + intros x Hw inl. destruct x; cbn [w_fbody] in Hw. feq. destruct (attrs =? 0)%N;
+        le_node Ity Ie Iis Ieb Ia Ite Ifb Ip Is Isb Ib Il.
+    + intros x Hw. destruct x; cbn [w_param] in Hw; le_node Ity Ie Iis Ieb Ia Ite Ifb Ip Is Isb Ib Il.
+    + intros x Hw inl. destruct x; try destruct op; try destruct is_const; cbn [w_stmt] in Hw;
+        le_node Ity Ie Iis Ieb Ia Ite Ifb Ip Is Isb Ib Il.
+    + intros x Hw inl. destruct x; cbn [w_sbranch] in Hw; le_node Ity Ie Iis Ieb Ia Ite Ifb Ip Is Isb Ib Il.
+    + intros [ss last] Hw inl. cbn [w_block] in Hw. le_node Ity Ie Iis Ieb Ia Ite Ifb Ip Is Isb Ib Il.
+    + intros x Hw inl. destruct x; cbn [w_last] in Hw; le_node Ity Ie Iis Ieb Ia Ite Ifb Ip Is Isb Ib Il.
+      destruct inl; cbn; lia.
+Qed.
+
+(** * The theorems about the rule *)
+
+Lemma rc_block_triple ctx n b : rc_block ctx n b = (fst (fst (rc_block ctx n b)), snd (fst (rc_block ctx n b)), snd (rc_block ctx n b)).
+Proof. destruct (rc_block ctx n b) as [[? ?] ?]. reflexivity. Qed.
+
+(** every other construct is counted in the output exactly as in the input *)
+Theorem remove_continue_keeps : forall j b, j < 9 -> j <> 1 ->
+  feature j (remove_continue_block b) = feature j b.
+Proof.
+  intros j b Hj Ne. rewrite !feature_f_block by exact Hj. unfold remove_continue_block.
+  destruct (keep_all j Ne (w_block b)) as (_ & _ & _ & _ & _ & _ & _ & _ & _ & _ & Hb & _).
+  eapply Hb; [apply Nat.le_refl|apply rc_block_triple].
+Qed.
+
+(** the [continue] statements of the output are exactly the stray ones of the input *)
+Theorem remove_continue_leaves_stray : forall b,
+  feature 1 (remove_continue_block b) = stray_continues b.
+Proof.
+  intros b. rewrite feature_f_block by lia. unfold remove_continue_block, stray_continues.
+  destruct (cont_all (w_block b)) as (_ & _ & _ & _ & _ & _ & _ & _ & _ & _ & Hb & _).
+  change false with (is_loop None). eapply Hb; [apply Nat.le_refl|apply rc_block_triple].
+Qed.
+
+(** (a) the rule removes every [continue] that is under a loop frame ... *)
+Theorem removes_continue : forall b, continue_in_loops b = true ->
+  feature 1 (remove_continue_block b) = 0%N.
+Proof.
+  intros b H. rewrite remove_continue_leaves_stray. unfold continue_in_loops in H.
+  apply N.eqb_eq in H. exact H.
+Qed.
+
+(** ... and only those: the carve-out is exact *)
+Theorem removes_continue_iff : forall b,
+  feature 1 (remove_continue_block b) = 0%N <-> continue_in_loops b = true.
+Proof.
+  intros b. rewrite remove_continue_leaves_stray. unfold continue_in_loops. symmetry. apply N.eqb_eq.
+Qed.
+
+(** the unconditional statement is false for the code as it is: a [continue] outside of any
+    loop (which darklua's parser accepts) survives *)
+Theorem removes_continue_refuted : exists b, feature 1 (remove_continue_block b) <> 0%N.
+Proof. exists (Block [] (Some LContinue)). vm_compute. discriminate. Qed.
+
+(** the hypothesis of [removes_continue] is satisfiable by a non-trivial input: nested loops,
+    [break] beside [continue], a function with its own loop inside a loop *)
+Example removes_continue_example :
+  let c := EIdent [99%N] in
+  let b := Block [SWhile c (Block [SIf [SBranch c (Block [] (Some LContinue))] None;
+                                   SNumericFor (Param [105%N] None) c c None
+                                     (Block [SIf [SBranch c (Block [] (Some LBreak))] None] (Some LContinue));
+                                   SLocal false [Param [103%N] None]
+                                     [EFunction (FBody [] false None None None 0%N
+                                        (Block [SRepeat (Block [] (Some LContinue)) c] None))]]
+                                  None)] None in
+  continue_in_loops b = true /\ feature 1 b = 3%N /\ feature 1 (remove_continue_block b) = 0%N /\
+  remove_continue_loops b = 3%N.
+Proof. vm_compute. repeat split. Qed.
+
+Lemma stray_le_feature : forall inl b, (stray_block inl b <= f_block 1 b)%N.
+Proof.
+  intros inl b. destruct (le_all (w_block b)) as (_ & _ & _ & _ & _ & _ & _ & _ & _ & _ & Hb & _).
+  apply Hb. apply Nat.le_refl.
+Qed.
+
+(** a tree without [continue] is trivially in the rule's domain *)
+Lemma no_continue_in_loops : forall b, feature 1 b = 0%N -> continue_in_loops b = true.
+Proof.
+  intros b H. rewrite feature_f_block in H by lia. unfold continue_in_loops, stray_continues.
+  apply N.eqb_eq. pose proof (stray_le_feature false b). lia.
+Qed.
+
+(** (b) the rule introduces none of the nine constructs *)
+Theorem preserves_continue : forall j b, j < 9 -> feature j b = 0%N ->
+  feature j (remove_continue_block b) = 0%N.
+Proof.
+  intros j b Hj Z. destruct (Nat.eq_dec j 1) as [->|Ne].
+  - apply removes_continue, no_continue_in_loops, Z.
+  - rewrite remove_continue_keeps by assumption. exact Z.
+Qed.
+
+(** the output is in the rule's domain again (the rule is idempotent on the census) *)
+Theorem remove_continue_output_in_loops : forall b, continue_in_loops b = true ->
+  continue_in_loops (remove_continue_block b) = true.
+Proof. intros b H. apply no_continue_in_loops, removes_continue, H. Qed.
